@@ -1,2 +1,62 @@
-From AB Require Import Store.
-Theorem C08_placeholder : True. Proof. exact I. Qed.
+(* C08 - reported line/column positions always match the printed text.
+   `advance pos0 text` (Prelude) is the meaning of "(line, column) after reading text" (0-based, as
+   Position() starts at (0,0)); `prefix_text s k` is the concatenated text of the first k tokens. *)
+From AB Require Import StoreTop StoreRun.
+
+(* token_size is the displacement of reading the text, and it is additive *)
+Theorem C08_token_size_meaning : forall x, advance pos0 x = token_size x.
+Proof. exact advance_pos0. Qed.
+Theorem C08_token_size_app : forall a b, token_size (a ++ b) = pos_iadd (token_size a) (token_size b).
+Proof. exact token_size_app. Qed.
+
+(* the reported position of the k-th token is the position of its first character in the printed text;
+   the reported index is its ordinal *)
+Theorem C08_position : forall s k t, Inv s -> nth_error (abs s) k = Some t ->
+  get_position s t = Ok (advance pos0 (prefix_text s k)) /\ get_index s t = Ok (Z.of_nat k).
+Proof. intros s k t [I L] H. exact (conj (obs_position s I k t H) (obs_index s I k t H)). Qed.
+
+Example C08_position_nonvacuous : Inv ex_s /\ nth_error (abs ex_s) 5 = Some 6%positive /\
+  advance pos0 (prefix_text ex_s 5) = mkpos 2 1.
+Proof. split; [exact (proj1 ex_inv)|]. split; [rewrite (proj2 ex_inv); reflexivity|vm_compute; reflexivity]. Qed.
+
+(* a text change (with or without line breaks appearing / disappearing) keeps the invariant, hence
+   C08_position holds again afterwards: all four branches of TokenStore.update *)
+Theorem C08_update_preserves : forall s t x s' r, Inv s -> set_text s t x = (s', r) ->
+  r = Ok tt /\ Inv s' /\ abs s' = abs s /\ (forall u, hnd s' u = hnd s u) /\ txt s' t = x /\
+  (forall u, u <> t -> txt s' u = txt s u).
+Proof. exact set_text_spec. Qed.
+
+(* the cache arithmetic of update(), as a statement about one block's token list P ++ t :: Q *)
+Theorem C08_update_cache : forall tk t r' P Q sz l, ~ In t P -> ~ In t Q ->
+  sizes_scan tk 0 (P ++ t :: Q) pos0 (-1) = (sz, l) ->
+  let tk' := PositiveMap.add t r' tk in let size := t_size r' in
+  let hi := zlen P in let old := tsz tk t in
+  let sz1 := mkpos (line sz + (line size - line old)) (col sz) in
+  sizes_scan tk' 0 (P ++ t :: Q) pos0 (-1) =
+   (if hi <? l then (sz1, l)
+    else if negb (line size =? 0) && (line old =? 0) then (mkpos (line sz1) (col size + cols tk Q), hi)
+    else if negb (line old =? 0) && (line size =? 0) then
+       let '(c, l') := back_scan tk (rev (enum_from 0 P)) (col sz1 + col size - col old) in (mkpos (line sz1) c, l')
+    else (mkpos (line sz1) (col sz1 + (col size - col old)), l)).
+Proof. exact update_cache. Qed.
+
+(* the fast path of _splice keeps the caches right when last_newline_index >= end_j *)
+Theorem C08_fast_path_cache : forall tk B1 R B2 tokens sz l,
+  sizes_scan tk 0 (B1 ++ R ++ B2) pos0 (-1) = (sz, l) -> l >= zlen (B1 ++ R) ->
+  sizes_scan tk 0 (B1 ++ tokens ++ B2) pos0 (-1) =
+  (mkpos (line sz + (- sum_lines tk R + sum_lines tk tokens)) (col sz), l + (zlen tokens - zlen R)).
+Proof. exact fast_cache. Qed.
+
+(* after any history of structural edits and text changes, stated on the list/text reference only *)
+Theorem C08_history_positions : forall LF ops s k t, 1 <= LF -> Inv s -> ops_valid (abs s) ops ->
+  nth_error (ref_run (abs s) ops) k = Some t ->
+  get_position (run_ops LF s ops) t =
+    Ok (advance pos0 (concat (map (ref_texts (txt s) ops) (firstn k (ref_run (abs s) ops))))) /\
+  get_index (run_ops LF s ops) t = Ok (Z.of_nat k).
+Proof. exact history_positions. Qed.
+
+Example C08_history_nonvacuous : Inv ex_s /\ ops_valid (abs ex_s) ex_ops /\
+  nth_error (ref_run (abs ex_s) ex_ops) 4 = Some 11%positive.
+Proof.
+  split; [exact (proj1 ex_inv)|]. split; [exact ex_ops_valid|]. rewrite (proj2 ex_inv). vm_compute. reflexivity.
+Qed.
